@@ -6,7 +6,7 @@ rows = []
 def _key(d):
     b = os.path.basename(d).split('-')
     return (b[0], int(b[1]) if len(b) > 1 and b[1].isdigit() else 0)
-for d in sorted(glob.glob(os.path.join(V, 'seeded', '*')), key=_key):
+for d in sorted([x for x in glob.glob(os.path.join(V, 'seeded', '*')) if os.path.isdir(x)], key=_key):
     m = json.load(open(os.path.join(d, 'meta.json')))
     if 'what' not in m: continue
     rows.append((os.path.basename(d), m))
